@@ -65,6 +65,9 @@ def boundary():
     d = make('Baltsplit', [0, 1, 2, 3], bits=4, alts={0: [4, 8, 12], 1: [5, 9], 3: [15, 7, 11, 13]}, style='bin')
     d['altsplit'] = True                                          # alternatives spread over several #[alt] attributes
     ds.append(d)
+    d = make('Bnoise', [0, 1, 2, 3, 4], bits=3, alts={1: [5], 4: [6, 7]}, displays={0: '-', 2: '.', 4: 'x'})
+    d['noise'] = True                                             # doc comments / other attributes around the helper attributes
+    ds.append(d)
     ds.append(make('Bwide', [0, 1, 2], bits=6))                     # declared width larger than minimal
     return ds
 
@@ -110,7 +113,9 @@ def emit(ds):
             o.append('#[bits(%d)]' % d['bits'])
         o.append('#[repr(u8)]')
         o.append('pub enum %s {' % E)
-        for v in d['variants']:
+        for vi, v in enumerate(d['variants']):
+            if d.get('noise'):
+                o.append(['    /// documented variant', '    #[allow(dead_code)]', '    #[doc = "x"]', '    #[cfg_attr(any(), deprecated)]'][vi % 4])
             if v['display']:
                 o.append("    #[display('%s')]" % v['ch'])
             if v['alts'] and d.get('altsplit'):
@@ -119,6 +124,8 @@ def emit(ds):
                     o.append('    #[alt(%s)]' % (hex(a) if j % 3 == 1 else bin(a) if j % 3 == 2 else str(a)))
             elif v['alts']:
                 o.append('    #[alt(%s)]' % ', '.join(str(a) for a in v['alts']))
+            if d.get('noise') and vi % 2 == 0:
+                o.append('    /// trailing doc comment')
             o.append('    %s = %s,' % (v['name'], v['lit']))
         o.append('}')
         o.append('impl Oracle for %s {' % E)
